@@ -326,6 +326,6 @@ Lemma case_hypotheses_sound nv faces edges :
   wf_mesh nv faces /\ mesh_of nv faces (mkMesh nv faces edges (gen_corners faces)) /\ edges_exact faces edges.
 Proof.
   intros H1 H2. pose proof (wf_mesh_b_sound nv faces H1) as Hw.
-  destruct (edges_ok_b_sound nv faces edges (proj1 Hw) H2) as (_ & Hv & He).
+  destruct (edges_ok_b_sound nv faces edges (proj1 Hw) H2) as (Hv & He).
   split; [exact Hw|]. split; [|exact He]. unfold mesh_of. cbn. auto.
 Qed.
